@@ -141,7 +141,7 @@ C04Call ==
               a == Asin(FormulaSinAlt(Ev.site.lat, dec0, HourAngle(Rel(Ev.r, Asr))))
               want == AsrAltitude(Ev.site.lat, dec0, Ev.p.sch) IN
           /\ Show(<<"RES", "c04", l, a - want>>)
-          /\ AbsI(a - want) <= 420                        \* 0.03 + 0.012 degree
+          /\ AbsI(a - want) <= 370                        \* 0.03 + 0.007 degree (measured residual of the oracle: max 0.0062)
           /\ Rel(Ev.r, Asr) > 0                           \* strictly after Dhuhr
           /\ Ok(Ev.r, Maghrib) => Rel(Ev.r, Asr) < Rel(Ev.r, Maghrib)
     /\ Step
